@@ -108,6 +108,9 @@ struct H {
     s: ops::NoDropOnPanic<cfb::Stream<crate::backend::MemFile>>,
     path: String,
     dirty: bool,
+    /// the handle's stream has been removed: whatever the handle's calls return from then on is
+    /// accepted (Ok or Err), but they must not change anything else
+    dead: bool,
 }
 
 /// Runs one handle history; returns the first problem (class, msg).
@@ -140,10 +143,41 @@ pub fn run_case(c: &HandleHist) -> Option<(String, String)> {
         let mut hs: Vec<H> = Vec::new();
         for p in &c.held {
             let s = live.comp.open_stream(p).map_err(|e| ("machinery".to_string(), format!("open_stream({}): {}", p, e)))?;
-            hs.push(H { s: ops::NoDropOnPanic::new(s), path: p.clone(), dirty: false });
+            hs.push(H { s: ops::NoDropOnPanic::new(s), path: p.clone(), dirty: false, dead: false });
         }
         for (i, act) in c.actions.iter().enumerate() {
             let bad = |m: String| ("handle".to_string(), format!("action {} {:?}: {}", i, act, m));
+            // calls on a handle whose stream was removed: results are not judged, effects on others are
+            let target = match act {
+                HAct::WriteAt0(h, _) | HAct::Append(h, _) | HAct::Flush(h) | HAct::SetLen(h, _) | HAct::ReadAll(h) => Some(*h),
+                HAct::Comp(_) => None,
+            };
+            if let Some(h) = target {
+                if hs[h].dead {
+                    let hd = &mut hs[h];
+                    match act {
+                        HAct::WriteAt0(_, n) | HAct::Append(_, n) => {
+                            let data = ops::pattern(ops::seed_of(&hd.path, *n as u64, 50 + i as u64), *n);
+                            if hd.s.seek(if matches!(act, HAct::Append(..)) { SeekFrom::End(0) } else { SeekFrom::Start(0) }).is_ok() {
+                                let _ = hd.s.write_all(&data);
+                            }
+                        }
+                        HAct::Flush(_) => {
+                            let _ = hd.s.flush();
+                        }
+                        HAct::SetLen(_, n) => {
+                            let _ = hd.s.set_len(*n);
+                        }
+                        _ => {
+                            let mut sink = Vec::new();
+                            if hd.s.seek(SeekFrom::Start(0)).is_ok() {
+                                let _ = hd.s.read_to_end(&mut sink);
+                            }
+                        }
+                    }
+                    continue;
+                }
+            }
             match act {
                 HAct::WriteAt0(h, n) | HAct::Append(h, n) => {
                     let hd = &mut hs[*h];
@@ -188,7 +222,23 @@ pub fn run_case(c: &HandleHist) -> Option<(String, String)> {
                     }
                 }
                 HAct::Comp(op) => {
+                    // overwriting a stream that a live handle is open on is the business of two handles on
+                    // one stream, which the property does not speak about: skipped
+                    if let Op::Rewrite(q, _) | Op::CreateStream(q) = op {
+                        if hs.iter().any(|hd| !hd.dead && &hd.path == q) {
+                            continue;
+                        }
+                    }
                     let st = ops::exec(&mut live.comp, op, &mut model);
+                    if let Op::RemoveStream(q) = op {
+                        if st.outcome.is_ok() {
+                            for hd in hs.iter_mut() {
+                                if &hd.path == q {
+                                    hd.dead = true;
+                                }
+                            }
+                        }
+                    }
                     if let Outcome::Panic(p) = &st.outcome {
                         return Err(("panic".into(), format!("action {} {:?} panicked: {}", i, act, p)));
                     }
@@ -200,6 +250,10 @@ pub fn run_case(c: &HandleHist) -> Option<(String, String)> {
         }
         // forced quiescent point: flush every handle, then judge everything
         for hd in hs.iter_mut() {
+            if hd.dead {
+                let _ = hd.s.flush();
+                continue;
+            }
             hd.s.flush().map_err(|e| ("handle".to_string(), format!("final flush of handle on {} failed: {}", hd.path, e)))?;
         }
         let want = model.root.dump();
@@ -209,6 +263,9 @@ pub fn run_case(c: &HandleHist) -> Option<(String, String)> {
         }
         // the handles still work after everything
         for hd in hs.iter_mut() {
+            if hd.dead {
+                continue;
+            }
             hd.s.seek(SeekFrom::Start(0)).map_err(|e| ("handle".to_string(), format!("seek on handle {} failed: {}", hd.path, e)))?;
             let mut got = Vec::new();
             hd.s.read_to_end(&mut got).map_err(|e| ("handle".to_string(), format!("read on handle {} failed: {}", hd.path, e)))?;
@@ -370,6 +427,54 @@ pub fn explore_seeded(ctx: &Ctx, version: u16, seed: &str, big: usize, depth: us
                 None => {
                     if depth > 1 {
                         rec(ctx, version, &st, &held, &alpha, &mut seq, depth, &mut cnt, 3);
+                    }
+                }
+            }
+            cnt
+        })
+        .collect();
+    let mut stats = HStats { start_states: 1, handle_choices: 1, sequences: 0, actions: 0 };
+    for (a, b) in counts {
+        stats.sequences += a;
+        stats.actions += b;
+    }
+    stats
+}
+
+/// Handles that outlive their stream: the held stream itself may be removed (and its name or its
+/// directory slot taken by a new object) while the handle still has buffered data; whatever the
+/// stale handle's calls return, no other object may change.
+pub fn explore_stale(ctx: &Ctx, version: u16, depth: usize) -> HStats {
+    let setup: Vec<Op> = vec![Op::CreateStream("/a".into()), Op::CreateStream("/b".into()), Op::CreateStream("/c".into())];
+    let held: Vec<String> = vec!["/a".into(), "/b".into()];
+    let st = StartState { setup, streams: vec!["/a".into(), "/b".into(), "/c".into()] };
+    let alpha = vec![
+        HAct::WriteAt0(0, 10),
+        HAct::Append(0, 4100),
+        HAct::Flush(0),
+        HAct::SetLen(0, 10),
+        HAct::WriteAt0(1, 10),
+        HAct::Flush(1),
+        HAct::Comp(Op::RemoveStream("/a".into())),
+        HAct::Comp(Op::RemoveStream("/c".into())),
+        HAct::Comp(Op::Rewrite("/new".into(), 50)),
+        HAct::Comp(Op::Rewrite("/a".into(), 4200)),
+        HAct::Comp(Op::CreateStorage("/g".into())),
+    ];
+    let counts: Vec<(u64, u64)> = alpha
+        .par_iter()
+        .map(|first| {
+            let mut cnt = (1u64, 1u64);
+            let mut seq = vec![first.clone()];
+            let case = HandleHist { version, setup: st.setup.clone(), held: held.clone(), actions: seq.clone(), fill: 0 };
+            match run_case(&case) {
+                Some((class, msg)) => {
+                    let core = msg.splitn(2, ": ").nth(1).unwrap_or(&msg).to_string();
+                    ctx.report(Violation { sig: format!("{}:{}", class, sig_norm(&core).chars().take(90).collect::<String>()), class, msg, replay: json!({"kind": "handles", "handles": case}) });
+                }
+                None => {
+                    if depth > 1 {
+                        rec(ctx, version, &st, &held, &alpha, &mut seq, depth, &mut cnt, 0);
                     }
                 }
             }
